@@ -4,7 +4,7 @@ import grammars as G
 import panics
 import termimpls
 from core import Relang, CheckError, Finding
-from mirutil import patterns_by_owner, union_pattern, predicate_expr, blocks_with_agg, call_name_matches, provenance, result_edges, leaf_calls, used_after_failure
+from mirutil import forward_aliases as forward_aliases_, patterns_by_owner, union_pattern, predicate_expr, blocks_with_agg, call_name_matches, provenance, result_edges, leaf_calls, used_after_failure
 
 LEVEL = "other"
 EXPLANATION = (
@@ -55,6 +55,8 @@ TABLE.update({
             "came from iref)"),
     "<loader::closure_loader::ClosureLoader<F> as json_ld::Loader<sophia_iri::Iri<std::sync::Arc<str>>, locspan::Location<sophia_iri::Iri<std::sync::Arc<str>>>>>::load_with::{closure#0}#unwrap:unwrap:call:core::str::<impl str>::parse":
         (1, "parses the constant \"application/ld+json\""),
+    "parser::adapter::try_convert_quad#index:str:RangeFrom":
+        (1, "`&bnode[2..]` strips the `_:` every rdf_types::BlankId starts with (its constructor checks the prefix)"),
     "<vocabulary::ArcBnode as sophia_api::prelude::Term>::bnode_id#index:str:RangeFrom":
         (1, "`&self[2..]` strips the `_:` every rdf_types::BlankId starts with (ArcBnode is only built from one, R8.6)"),
     "<vocabulary::ArcBnode as sophia_api::prelude::Term>::borrow_term#index:str:RangeFrom":
@@ -106,9 +108,11 @@ VALIDATOR_CALLS = {
         ("R8.9", "the vocabulary trait is infallible: the tag is wrapped unchecked here and validated by try_convert_quad before any quad is "
                  "delivered"),
     "<vocabulary::ArcBnode as sophia_api::prelude::Term>::bnode_id#validator-call:BnodeId:call:sophia_api::MownStr::<'a>::from_ref":
-        ("L8.1:generated-label", "json-ld relabels every blank node with rdf_types::generator::Blank: `_:` + decimal counter"),
+        ("R8.9", "json-ld relabels subjects, objects and graph names with its generator (`_:` + decimal counter), but with "
+                 "produce_generalized_rdf it keeps the label of a blank node used as predicate, and rdf_types::BlankId allows ':': the "
+                 "labels are validated by try_convert_quad before any quad is delivered"),
     "<vocabulary::ArcBnode as sophia_api::prelude::Term>::borrow_term#validator-call:BnodeId:call:std::ops::Index::index":
-        ("L8.1:generated-label", "as above"),
+        ("R8.9", "as above"),
     "ns::_term::NsTerm::<'a>::iriref#validator-call:IriRef:place":
         ("R9.4", "NsTerm values come from Namespace::get (validates ns+suffix, C09 R9.4) or from the namespace! constants"),
     "term::_native_iri::<impl term::Term for sophia_iri::Iri<T>>::iri#validator-call:IriRef:call:mownstr::MownStr::<'a>::from_ref":
@@ -119,7 +123,9 @@ VALIDATOR_ASSERT = r"is_ok\((sophia_iri::Iri(Ref)?::<T>::new|sophia_api::term::(
 ASSERTED = {
     "model::bnode_id": ("sophia_api::term::BnodeId::<T>::new", "L8.1:label"),
     "model::iri": ("sophia_iri::IriRef::<T>::new", "L8.1:iri-ref"),       # generalized parsers deliver relative references
-    "model::datatype": ("sophia_iri::Iri::<T>::new", "L8.1:iri-abs"),      # rio always resolves datatype IRIs
+    "model::datatype": ("sophia_iri::IriRef::<T>::new", "L8.1:iri-ref"),   # generalized parsers without a base deliver relative datatype IRIs
+    #   (until the third hunt this entry demanded Iri::new, "rio always resolves datatype IRIs": an assumption about the back-end that GTriG
+    #    without a base refutes: `@prefix : <foo/> . <s> :p "a"^^:bar .`)
     "model::variable": ("sophia_api::term::VarName::<T>::new", "L8.1:varname"),
     "model::language_tag": ("sophia_api::term::LanguageTag::<T>::new", "L8.1:langtag"),
 }
@@ -265,10 +271,14 @@ def json_ld_language_tags_rule(ck, facts):
     conv = [(bi, t) for bi, t in fn.calls() if call_name_matches(t, r"parser::adapter::convert_quad$")]
     checks = [(bi, t) for bi, t in fn.calls() if call_name_matches(t, r"sophia_api::term::LanguageTag::<T>::new$")
               and any(n.startswith("param:1") for n in leaf_calls(fn, t["args"][0]))]
-    if not conv or not checks:
-        ck.bad("R8.9", "R8.9@try_convert_quad#shape", "try_convert_quad must validate the language tag of its argument with LanguageTag::new and then "
-               "call convert_quad (found %d validations of the parameter, %d conversions)" % (len(checks), len(conv)), fn.loc)
+    labels = [(bi, t) for bi, t in fn.calls() if call_name_matches(t, r"sophia_api::term::BnodeId::<T>::new$")
+              and any(n.startswith("param:1") for n in leaf_calls(fn, t["args"][0], limit=120))]
+    if not conv or not checks or not labels:
+        ck.bad("R8.9", "R8.9@try_convert_quad#shape", "try_convert_quad must validate the language tag and the blank node labels of its argument "
+               "(LanguageTag::new, BnodeId::new) and then call convert_quad (found %d + %d validations of the parameter, %d conversions)"
+               % (len(checks), len(labels), len(conv)), fn.loc)
         return False
+    checks = checks + labels
     for bi, t in checks:
         u = used_after_failure(fn, t, [cb for cb, _ in conv])
         if u is None:
@@ -309,7 +319,7 @@ def json_ld_language_tags_rule(ck, facts):
         ck.bad("R8.9", "R8.9@parse_json#unchecked-quads", "parse_json does not pass the quads of json-ld through try_convert_quad")
         ok = False
     if ok:
-        ck.ok("R8.9", "try_convert_quad validates language tags (%d check(s)), refuses on failure, is the only user of convert_quad, and is what "
+        ck.ok("R8.9", "try_convert_quad validates language tags and blank node labels (%d check(s)), refuses on failure, is the only user of convert_quad, and is what "
                       "parse_json maps json-ld's quads through" % len(checks))
     return ok
 
@@ -352,6 +362,47 @@ def json_ld_configured_iris_rule(ck, facts):
             checked.add("document URL")
         if any(re.search(r"JsonLdOptions::<LF>::inner$|JsonLdOptions.*::base$", x) for x in names):
             checked.add("base option")
+    if len(checked) < 2 and not bad:
+        # the same check spelled with an iterator search: `url.into_iter().chain(base).find_map(|iri| iref::Iri::new(..).err().map(..))`
+        # whose outcome is decided before the processor starts, one way leading to a refusal
+        IREF = r"^iref::Iri::<'a>::new$|^iref::Iri::new$|^iref::IriBuf::new$"
+        for bi, t in fn.calls():
+            if not call_name_matches(t, r"iter::Iterator::(find_map|find|any|all|position|try_for_each|try_fold)$") or len(t["args"]) < 2:
+                continue
+            o = fn.origin(t["args"][-1])
+            cf = facts.fns.get(o[1]["def"]) if o[0] == "agg" and o[1].get("k") == "closure" else None
+            if cf is None:
+                continue
+            inner = [u for u in facts.with_closures(cf) if any(call_name_matches(t_, IREF) for _, t_ in u.calls())]
+            if not inner:
+                continue
+            # the parse result must reach what the closure returns (not be dropped)
+            if not any(re.search(IREF, nm) for nm in leaf_calls(inner[0], ["m", [0]], limit=80)):
+                continue
+            doms = fn.dominators()
+            if not all(bi in doms.get(sb, ()) for sb in starts):
+                continue
+            # decided: some successor region of the search's outcome cannot reach the processor
+            decided = False
+            for cand in sorted(fn.reachable(t["to"]) if t.get("to") is not None else ()):
+                tt = fn.blocks[cand]["t"]
+                if tt["t"] != "switch" or tt["on"][0] == "k":
+                    continue
+                oo = fn.origin(tt["on"])
+                src = oo[1][1][0] if oo[0] == "rvalue" and oo[1][0] == "discr" and oo[1][1] else (tt["on"][1][0])
+                if src not in set(forward_aliases_(fn, t["dest"][0])):
+                    continue
+                targets = [tb for _, tb in tt["vals"]] + [tt["else"]]
+                if any(not any(sb in fn.reachable(tb) for sb in starts) for tb in targets) and \
+                        any(any(sb in fn.reachable(tb) for sb in starts) for tb in targets):
+                    decided = True
+            if not decided:
+                continue
+            names = leaf_calls(fn, t["args"][0], limit=80)
+            if any(re.search(r"RemoteDocument::<I, M, T>::url$|RemoteDocument.*::url$", x) for x in names):
+                checked.add("document URL")
+            if any(re.search(r"JsonLdOptions::<LF>::inner$|JsonLdOptions.*::base$", x) for x in names):
+                checked.add("base option")
     missing = [x for x in ("document URL", "base option") if x not in checked]
     if missing and not bad:
         ck.bad("R8.10", "R8.10@parse_json#configured-iri-unchecked", "parse_json starts the json-ld processor without handing the %s to iref first: "
